@@ -1,4 +1,5 @@
 import CsVerif.Model.C20
+import CsVerif.Gen.PyUtils
 /-! Line-protocol driver for the C20 model. -/
 namespace C20
 open Proto
@@ -50,6 +51,52 @@ def step : List String → String
       | some _ => "config"
       | none => "none"
     | _, _ => "bad-op"
+  -- the definitions translated from the source text (Gen/PyUtils.lean); byteorder is an arbitrary ASCII token here
+  | ["gxor", d, k] =>
+    match bytesTok d, bytesTok k with
+    | some d, some k => showPy showBytes (Gen.PyUtils.xor d k)
+    | _, _ => "bad-op"
+  | ["gnbenc", d, off] =>
+    match bytesTok d, intTok off with
+    | some d, some off => showPy showBytes (Gen.PyUtils.netbios_encode d off)
+    | _, _ => "bad-op"
+  | ["gnbdec", d, off] =>
+    match bytesTok d, intTok off with
+    | some d, some off => showPy showBytes (Gen.PyUtils.netbios_decode d off)
+    | _, _ => "bad-op"
+  | ["gpack", n, size, o, sg] =>
+    match intTok n, optTok intTok size, boolTok sg with
+    | some n, some size, some sg => showPy showBytes (Gen.PyUtils.pack n size (PyRt.s o) sg)
+    | _, _, _ => "bad-op"
+  | ["gunpack", d, size, o, sg] =>
+    match bytesTok d, optTok intTok size, boolTok sg with
+    | some d, some size, some sg => showPy toString (Gen.PyUtils.unpack d size (PyRt.s o) sg)
+    | _, _, _ => "bad-op"
+  | ["guri", t] =>
+    match natsTok t with
+    | some t =>
+      showPy id (do
+        let c ← Gen.PyUtils.checksum8 t
+        let a ← Gen.PyUtils.is_stager_x86 t
+        let b ← Gen.PyUtils.is_stager_x64 t
+        pure s!"{c} {showBool a} {showBool b}")
+    | none => "bad-op"
+  | ["gpart", name, arg, sg] =>
+    -- the partial applications u8 … p64be: `arg` is bytes for u*, an int for p*
+    match boolTok sg with
+    | none => "bad-op"
+    | some sg =>
+      let u (f : Bytes → Bool → Py Int) : String := match bytesTok arg with | some d => showPy toString (f d sg) | none => "bad-op"
+      let p (f : Int → Bool → Py Bytes) : String := match intTok arg with | some n => showPy showBytes (f n sg) | none => "bad-op"
+      let le := PyRt.s "little"
+      match name with
+      | "u8" => u (Gen.PyUtils.u8 · le ·) | "u16" => u (Gen.PyUtils.u16 · le ·) | "u32" => u (Gen.PyUtils.u32 · le ·)
+      | "u64" => u (Gen.PyUtils.u64 · le ·) | "u16be" => u Gen.PyUtils.u16be | "u32be" => u Gen.PyUtils.u32be
+      | "u64be" => u Gen.PyUtils.u64be
+      | "p8" => p (Gen.PyUtils.p8 · le ·) | "p16" => p (Gen.PyUtils.p16 · le ·) | "p32" => p (Gen.PyUtils.p32 · le ·)
+      | "p64" => p (Gen.PyUtils.p64 · le ·) | "p16be" => p Gen.PyUtils.p16be | "p32be" => p Gen.PyUtils.p32be
+      | "p64be" => p Gen.PyUtils.p64be
+      | _ => "bad-op"
   | _ => "bad-op"
 
 end C20
